@@ -119,7 +119,7 @@ def run(ctx):
     from . import c11
     r4 = Rule("R12.4", "what a type copies from a type of another module does not depend on which module was processed first (module-wide pass barriers)", floor=1)
     c11.module_barriers_rule(prog, tab.get("module_barriers", []), r4)
-    return [ra, rb, rc, rd, r12_2(prog, scope), r12_3(prog), r4, r12_5(prog, tab), r12_6(prog, tab)]
+    return [ra, rb, rc, rd, r12_2(prog, scope), r12_3(prog), r4, r12_5(prog, tab), r12_6(prog, tab), r12_7(prog, tab)]
 
 
 def r12_6(prog, tab):
@@ -188,6 +188,118 @@ def r12_6(prog, tab):
             else:
                 r.bad(f, key, "`%s` is written by %s and read by %s (or the reverse), and %s calls the parser without assigning it: it still holds "
                               "what the previous input file left there" % (v, lex.name, par.name, f.name), e["line"])
+    return r
+
+
+def r12_7(prog, tab=None, rid="R12.7"):
+    """A text held in a function's static buffer is used before the next call that refills the buffer.  The compiler's
+    name and number formatters (asn1p_itoa, asn1c_make_identifier and what returns its result, asn1f_printable_value,
+    asn1p_ref_string, ...) answer a pointer into a static buffer; the set is computed (functions returning the address of
+    one of their static locals, or the result of such a function), as is the set of functions that refill each buffer
+    (call-graph closure).  Where the result is kept in a local, no use of the local is reachable after a call that
+    refills the same buffer: it would silently read the other text (digits of another number, another type's name) and
+    the output would no longer be a function of the input alone."""
+    import collections
+    from ..model import const_of
+    r = Rule(rid, "a pointer into a formatter's static buffer kept in a local is not used after a call that refills that buffer", floor=10)
+    exc = {(x["function"], x["key"]): x["reason"] for x in (tab or {}).get("r12_7_exceptions", [])}
+    statics = collections.defaultdict(set)
+    for g in prog.globals:
+        if g.get("in_function"):
+            statics[g["in_function"]].add(g["id"])
+    owner = {}
+    for f in prog.funcs.values():
+        if "char" not in f.ret_type or "*" not in f.ret_type:
+            continue
+        for b, i, e in f.returns():
+            ex = e.get("expr")
+            if ex and is_var(ex["tree"]) and strip_casts(ex["tree"])[1] in statics.get(f.name, ()):
+                owner[f.name] = f.name
+    ch = True
+    while ch:
+        ch = False
+        for f in prog.funcs.values():
+            if f.name in owner or "char" not in f.ret_type or "*" not in f.ret_type:
+                continue
+            for b, i, e in f.returns():
+                ex = e.get("expr")
+                t = strip_casts(ex["tree"]) if ex else None
+                if isinstance(t, list) and t and t[0] == "call" and t[2] in owner:
+                    owner[f.name] = owner[t[2]]
+                    ch = True
+    if len(owner) < 5:
+        raise AnalysisBroken("static-buffer formatters found: %s" % sorted(owner))
+    cg = prog.callgraph()
+    clob = collections.defaultdict(set)
+    for n_, o in owner.items():
+        clob[n_].add(o)
+    ch = True
+    while ch:
+        ch = False
+        for f in prog.funcs.values():
+            cur = set(clob[f.name])
+            for b, i, e, tg in cg.sites[f.key]:
+                for t in tg:
+                    cur |= clob[prog.funcs[t].name]
+            if cur != clob[f.name]:
+                clob[f.name] = cur
+                ch = True
+    r.note("static-buffer formatters: %s" % ", ".join("%s(%s)" % (k, v) if k != v else k for k, v in sorted(owner.items())))
+    for f in sorted(prog.funcs.values(), key=lambda f: f.key):
+        n = 0
+        for b, i, e in f.calls():
+            cal = e.get("callee")
+            if cal not in owner or e.get("use") not in ("assigned", "init"):
+                continue
+            ui = e.get("useinfo", {})
+            vid = ui.get("var") or (strip_casts(ui["lhs_tree"])[1] if ui.get("lhs_tree") is not None and is_var(ui["lhs_tree"]) else None)
+            if not vid:
+                continue
+            # only a plain `p = f(...)`: a result handed to strdup() etc. is a copy
+            if ui.get("lhs_tree") is None and not ui.get("var"):
+                continue
+            o = owner[cal]
+            n += 1
+            key = "%s=%s()#%d" % (vid.split("@")[0], cal, n)
+            seen, st, bad = set(), [(b.id, i + 1, None)], None
+            while st and not bad:
+                bid, idx, cl = st.pop()
+                if (bid, idx, cl) in seen:
+                    continue
+                seen.add((bid, idx, cl))
+                blk = f.blocks[bid]
+                stop = False
+                for j in range(idx, len(blk.ev)):
+                    y = blk.ev[j]
+                    if (y["k"] == "assign" and is_var(y.get("lhs_tree"), vid) and y.get("op") == "=") or (y["k"] == "decl" and y.get("id") == vid):
+                        src = (y.get("rhs") or y.get("init") or {}).get("tree")
+                        if src is not None and any(nd[0] == "call" and nd[1] == e.get("id") for nd in walk(src)):
+                            continue          # the store of this very result
+                        stop = True
+                        break
+                    trees = [a.get("tree") for a in y.get("args", [])] if y["k"] == "call" else [(y.get("rhs") or y.get("init") or y.get("expr") or {}).get("tree")]
+                    uses = any(t is not None and any(nd[0] == "var" and nd[1] == vid for nd in walk(t)) for t in trees)
+                    if uses and cl:
+                        bad = (y.get("line"), cl)
+                        break
+                    if y["k"] == "call" and y.get("callee") and o in clob.get(y["callee"], ()):
+                        same = y["callee"] == cal and [tree_text(a.get("tree")) for a in y.get("args", [])] == [tree_text(a.get("tree")) for a in e.get("args", [])]
+                        # the same formatter called again with the same arguments leaves the same text in the buffer
+                        cl = None if same else (y.get("line"), y["callee"])
+                if stop or bad:
+                    continue
+                if cl and blk.term and "cond" in blk.term and any(nd[0] == "var" and nd[1] == vid for nd in walk(blk.term["cond"]["tree"])):
+                    bad = (blk.term.get("line"), cl)
+                    break
+                for s_ in blk.succs():
+                    st.append((s_, 0, cl))
+            if bad is None:
+                r.ok(f, key, "every use of the local comes before the next call that refills %s's buffer" % o, e["line"])
+            elif (f.name, key) in exc:
+                r.exc(f, key, exc[(f.name, key)], e["line"])
+            else:
+                r.bad(f, key, "`%s` points into the static buffer of %s; %s (line %s) refills that buffer and `%s` is used again at line %s: it now "
+                              "reads the other text" % (vid.split("@")[0], o, bad[1][1], bad[1][0], vid.split("@")[0], bad[0]), e["line"])
     return r
 
 
